@@ -4,7 +4,15 @@
 // ops:
 //   new rpc <rawmode>          RpcCodec's template ProtobufCodecLiteT<RpcMessage, rpctag, Codec> (tag "RPC0")
 //   new lite <tag> <rawmode>   ProtobufCodecLite with an arbitrary tag; prototype ListRpcRequest (no required field)
-//   new ex                     examples/protobuf/codec ProtobufCodec (type-name field)
+//   new ex                     examples/protobuf/codec ProtobufCodec (type-name field); built with -DWITH_EXAMPLE_CODEC.
+//                              encode <q|a|e> <id> <text> = muduo.Query / muduo.Answer / muduo.Empty through
+//                              ProtobufCodec::fillEmptyBuffer (text bytes are mapped to letters: proto2 `string`).
+//                              ProtobufCodec has no hook for protobuf's verdicts, so before each onMessage() the driver
+//                              walks the complete frames in the buffer BY THEIR LENGTH FIELDS ONLY and asks protobuf itself
+//                              (not the codec): `< known <fnv> <len> <0|1>` is the type name registered,
+//                              `< verdict <fnv of name NUL payload> <len> <0|1>` does the payload parse as that type.
+//                              Messages: `msg <type name hex> <payload len> <payload fnv>` (+ `# ser <len> <fnv>`: the decoded
+//                              message serialised again, for the round-trip oracle).
 //   reset                      fresh Buffer, connection alive again
 //   encode <fields...>         build a message, fillEmptyBuffer; prints `< payload <bytes>` and `frame <hex>`
 //   feed <bytes>               append to the Buffer; onMessage unless an error was reported earlier
@@ -29,6 +37,8 @@
 #ifdef WITH_EXAMPLE_CODEC
 #include "examples/protobuf/codec/codec.h"
 #include "query.pb.h"
+#include <google/protobuf/descriptor.h>
+#include <google/protobuf/message.h>
 #endif
 #include "common.h"
 #include <memory>
@@ -128,11 +138,56 @@ static void exError(const TcpConnectionPtr&, Buffer*, Timestamp, ProtobufCodec::
   printf("err %s\n", ProtobufCodec::errorCodeToString(e).c_str());
   g_dead = true;
 }
+// the payloads of the complete frames in the buffer, in order (filled by exScan before onMessage): the i-th message
+// callback of one call belongs to the i-th frame
+static std::vector<std::string> g_exPayloads;
+static size_t g_exNext = 0;
 static void exMessage(const TcpConnectionPtr&, const ::MessagePtr& m, Timestamp) {
   std::string tn = m->GetTypeName();
-  std::string p = m->SerializeAsString();
-  printf("# fields ex type=%s\n", tn.c_str());
-  printf("msg %s %zu %llu\n", toHex(tn).c_str(), p.size(), static_cast<unsigned long long>(fnv64(p)));
+  std::string ser = m->SerializeAsString();
+  std::string pay = g_exNext < g_exPayloads.size() ? g_exPayloads[g_exNext] : std::string("?");
+  ++g_exNext;
+  printf("# ser %zu %llu\n", ser.size(), static_cast<unsigned long long>(fnv64(ser)));
+  printf("msg %s %zu %llu\n", toHex(tn).c_str(), pay.size(), static_cast<unsigned long long>(fnv64(pay)));
+}
+static int32_t be32At(const char* p) {
+  const unsigned char* u = reinterpret_cast<const unsigned char*>(p);
+  return static_cast<int32_t>((static_cast<uint32_t>(u[0]) << 24) | (static_cast<uint32_t>(u[1]) << 16) |
+                              (static_cast<uint32_t>(u[2]) << 8) | static_cast<uint32_t>(u[3]));
+}
+// environment answers for the model: protobuf's registry and parser, asked directly.  The walk uses the wire format
+// of codec.h (int32 len; int32 nameLen; char typeName[nameLen]; payload; int32 checksum) and checks nothing.
+static void exScan(const Buffer& buf) {
+  g_exPayloads.clear(); g_exNext = 0;
+  const char* p = buf.peek();
+  size_t n = buf.readableBytes(), pos = 0;
+  while (n - pos >= 4) {
+    int32_t len = be32At(p + pos);
+    if (len < 10 || len > 64 * 1024 * 1024 || n - pos < 4 + static_cast<size_t>(len)) break;
+    const char* body = p + pos + 4;
+    int32_t nameLen = be32At(body);
+    std::string pay;
+    if (nameLen >= 2 && nameLen <= len - 8) {
+      std::string tn(body + 4, body + 4 + nameLen - 1);
+      pay.assign(body + 4 + nameLen, body + len - 4);
+      const google::protobuf::Descriptor* d = google::protobuf::DescriptorPool::generated_pool()->FindMessageTypeByName(tn);
+      const google::protobuf::Message* proto = d ? google::protobuf::MessageFactory::generated_factory()->GetPrototype(d) : NULL;
+      printf("< known %llu %zu %d\n", static_cast<unsigned long long>(fnv64(tn)), tn.size(), proto ? 1 : 0);
+      if (proto) {
+        std::unique_ptr<google::protobuf::Message> m(proto->New());
+        bool ok = m->ParseFromArray(pay.data(), static_cast<int>(pay.size()));
+        std::string key = tn + std::string(1, '\0') + pay;
+        printf("< verdict %llu %zu %d\n", static_cast<unsigned long long>(fnv64(key)), key.size(), ok ? 1 : 0);
+      }
+    }
+    g_exPayloads.push_back(pay);
+    pos += 4 + static_cast<size_t>(len);
+  }
+}
+static std::string letters(const std::string& s) {
+  std::string r(s);
+  for (size_t i = 0; i < r.size(); ++i) r[i] = static_cast<char>('a' + static_cast<unsigned char>(r[i]) % 26);
+  return r;
 }
 #endif
 
@@ -210,7 +265,7 @@ int main() {
 #ifdef WITH_EXAMPLE_CODEC
       } else if (ex && w.size() == 4) {
         // encode <q|a|e> <id> <text>
-        std::string s; parseBytes(w[3], &s);
+        std::string s; parseBytes(w[3], &s); s = letters(s);
         if (w[1] == "q") { muduo::Query m; m.set_id(atoll(w[2].c_str())); m.set_questioner(s); payload = m.SerializeAsString(); ProtobufCodec::fillEmptyBuffer(&out, m); }
         else if (w[1] == "a") { muduo::Answer m; m.set_id(atoll(w[2].c_str())); m.set_questioner(s); m.set_answerer(s); payload = m.SerializeAsString(); ProtobufCodec::fillEmptyBuffer(&out, m); }
         else { muduo::Empty m; if (w[2] != "-") m.set_id(atoi(w[2].c_str())); payload = m.SerializeAsString(); ProtobufCodec::fillEmptyBuffer(&out, m); }
@@ -228,7 +283,7 @@ int main() {
         if (rpc) rpc->onMessage(conn, buf.get(), now);
         else if (lite) lite->onMessage(conn, buf.get(), now);
 #ifdef WITH_EXAMPLE_CODEC
-        else if (ex) ex->onMessage(conn, buf.get(), now);
+        else if (ex) { exScan(*buf); ex->onMessage(conn, buf.get(), now); }
 #endif
       }
 #ifdef WITH_EXAMPLE_CODEC
